@@ -178,6 +178,21 @@ class C17(PropBase):
             code = 2 + GE.EXC.get(exc, 9)
         t2 = (f"CTian {c_graph_off(g)} {c_list([OFF + v for v in C])} {c_list([OFF + v for v in T])} {GE.c_expr(qT)} "
               f"{c_list([OFF + v for v in topo])} {code} {GE.c_expr(res) if res is not None else 'EOne'}")
+        # the c-factor routine itself, on every district of G_A (A = An(C) within T) from the compound Q[A] (Lemma 4 when Q[A] is not atomic)
+        extra_terms, extra_violation = [], None
+        A = sorted(anc_in(g, T, C))
+        try:
+            from y0.algorithm.tian_id import compute_ancestral_set_q_value
+            qA = compute_ancestral_set_q_value(ancestral_set=frozenset(GG.V(v) for v in A), subgraph_variables=frozenset(GG.V(v) for v in T),
+                                               subgraph_probability=qT, graph_topo=tv)
+            for D in districts(g, A):
+                qD = compute_c_factor(district=[GG.V(v) for v in D], subgraph_variables={GG.V(v) for v in A}, subgraph_probability=qA, graph_topo=tv)
+                extra_terms.append(f"CCFactor {c_list([OFF + v for v in D])} {c_list([OFF + v for v in A])} {GE.c_expr(qA)} "
+                                   f"{c_list([OFF + v for v in topo])} {GE.c_expr(qD)}")
+                if extra_violation is None and len(g["nodes"]) <= 6 and len(g["bid"]) <= 5 and not case["pop"]:
+                    extra_violation = q_truth_violation(g, D, qD, f"compute_c_factor of the district {D} of G_A, A = {A}, from Q[A] = {qA}:")
+        except Exception as ex:  # noqa: BLE001
+            extra_violation = f"compute_c_factor on a district of G_A raised {type(ex).__name__}"
         if exc is not None:
             violation, key = f"identify_district_variables raised {exc} on a valid input", f"C17/crash/{exc}"
         elif len(g["nodes"]) <= 6 and len(g["bid"]) <= 5 and not case["pop"]:
@@ -186,10 +201,12 @@ class C17(PropBase):
                 violation = q_truth_violation(g, C, res, "identify_district_variables")
             if violation:
                 key = "C17/wrong-cfactor"
+        if violation is None and extra_violation:
+            violation, key = extra_violation, "C17/wrong-cfactor"
         return {"out": str(res) if res is not None else code, "violation": violation, "nontrivial": sorted(C) != sorted(T) or len(T) > 1,
                 "features": [f"n={len(g['nodes'])}", f"|T|={len(T)}", f"|C|={len(C)}", "pop" if case["pop"] else "plain",
                              "expr" if code == 0 else ("fail" if code == 1 else f"exception:{exc}")],
-                "terms": [t1, t2], "key": key}
+                "terms": [t1, t2] + extra_terms, "key": key}
 
     def coq(self, case, res):
         ts = res.pop("terms", None)
